@@ -15,8 +15,8 @@ import (
 	idp "berty.tech/go-ipfs-log/identityprovider"
 	"berty.tech/go-ipfs-log/iface"
 	"berty.tech/go-ipfs-log/io/cbor"
-	"github.com/libp2p/go-libp2p/core/crypto"
 	coreiface "github.com/ipfs/kubo/core/coreiface"
+	"github.com/libp2p/go-libp2p/core/crypto"
 )
 
 var Ctx = context.Background()
